@@ -45,12 +45,12 @@ PROFILES = {
     "C01": profile(unicode_p=0.3, literal_ids=2, share_ids_p=0.06,
                    w={"add": 14, "open": 10, "drop": 4, "reconnect": 5, "adv_phase": 1.2, "adv_long": 0.8,
                       "restart": 1.5, "kill": 0.6, "close": 6, "reuse": 1.5}),
-    "C02": profile(nsides=(2, 3), autoping_p=0.4, names=2, literal_ids=1, napps=(1, 2), share_ids_p=0.06, unicode_p=0.25,
+    "C02": profile(nsides=(2, 3), autoping_p=0.4, names=2, literal_ids=1, napps=(1, 2), share_ids_p=0.06, unicode_p=0.25, big_p=0.02,
                    w={"add": 14, "open": 10, "connect": 10, "adv_sweep": 3, "restart": 2.0, "kill": 0.6,
                       "stall": 0.6, "reconnect": 5, "close": 3, "release": 2, "persona": 1, "split": 2.0, "late_claim": 0.7, "reuse": 1.0}),
     "C03": profile(names=3, w={"claim": 14, "allocate": 4, "release": 8, "restart": 1.5, "reconnect": 4, "late_claim": 2.0,
                                "resend": 3, "close": 5, "adv_long": 0.8, "add": 3}),
-    "C04": profile(allow_list_p=0.5, choice_modes=["faithful", "min", "max", "keyed"],
+    "C04": profile(allow_list_p=0.5, napps=(1, 2), case_app_p=0.3, choice_modes=["faithful", "min", "max", "keyed"],
                    randrange_modes=["faithful", "collide"], steps=(6, 30), names=6,
                    w={"allocate": 16, "bulk": 0.9, "claim": 5, "release": 6, "connect": 10, "list": 3,
                       "adv_long": 0.5, "add": 2, "open": 2, "close": 3, "persona": 0.5}),
@@ -58,7 +58,7 @@ PROFILES = {
                    usage_p=0.3,
                    w={"third": 6, "jump": 0.5, "reuse": 1.5, "claim": 8, "open": 9, "close": 6, "release": 4, "reconnect": 5, "resend": 4,
                       "drop": 4, "restart": 1.0, "add": 6}),
-    "C06": profile(napps=(2, 3), names=2, literal_ids=2, share_ids_p=0.12, numeric_app_p=0.15,
+    "C06": profile(napps=(2, 3), names=2, literal_ids=2, share_ids_p=0.12, numeric_app_p=0.15, case_app_p=0.2,
                    w={"restart": 1.0, "adv_sweep": 1.5, "adv_long": 0.6, "connect_unbound": 1.5}),
     "C07": profile(names=4, nsides=(2, 3),
                    w={"claim": 12, "allocate": 5, "release": 10, "list": 5, "close": 6, "open": 5, "add": 3,
@@ -78,7 +78,7 @@ PROFILES = {
                       "kill": 0.0}),
     "C16": profile(usage_p=1.0, blur=[1, 7, 60, 61, 100, 900, 3600, 86400],
                    w={"close": 8, "release": 7, "persona": 3, "adv_long": 1.5, "adv_sweep": 2, "adv_small": 6}),
-    "C17": profile(unicode_p=0.5, welcome_p=0.7, share_ids_p=0.05,
+    "C17": profile(unicode_p=0.5, welcome_p=0.7, share_ids_p=0.05, big_p=0.01,
                    w={"bad": 14, "connect_unbound": 2, "ping": 2, "third": 1, "list": 5}),
     "C10": profile(steps=(6, 22), usage_p=0.6, nsides=(2, 3), names=3, autoping_p=0.1, hold_p=0.0,
                    w={"claim": 9, "release": 7, "close": 8, "open": 7, "add": 5, "adv_sweep": 1.5, "adv_long": 1.0,
@@ -116,6 +116,8 @@ class Gen(object):
         self.apps = APPS[:r.randint(*p["napps"])]
         if r.random() < p.get("numeric_app_p", 0.0):
             self.apps[-1] = "1"          # an application whose id looks like a number
+        if len(self.apps) >= 2 and r.random() < p.get("case_app_p", 0.06):
+            self.apps[1] = self.apps[0].swapcase()   # two applications whose ids differ in letter case only
         self.sides = SIDES[:r.randint(*p["nsides"])]
         self.names = NAMES[:max(1, p["names"])]
         self.nsteps = r.randint(*p["steps"])
@@ -138,6 +140,7 @@ class Gen(object):
         self.quiesce = r.random() < p["quiesce_p"]
         self.conns = {}
         self.last_add_by_side = {}
+        self.big_done = False
         self.next_cid = 0
         self.counter = 0
         self.queue = []
@@ -284,6 +287,10 @@ class Gen(object):
             m["phase"], m["body"] = prev
         c.last_add = (m["phase"], m["body"])
         self.last_add_by_side[(c.app, c.side)] = c.last_add
+        if self.rng.random() < self.p.get("big_p", 0.004) and not self.big_done:
+            # a large (but legal) payload, once per run
+            self.big_done = True
+            m["body"] = self.uniq("B") + "f" * self.rng.choice([100000, 1200000, 2500000])
         if self.rng.random() < 0.7:
             m["id"] = self.uniq("m")
         if self.rng.random() < 0.08:
